@@ -186,7 +186,11 @@ func setupRoutes(module *ast.Module, filePath string, forceInterpreter ...bool) 
 					useCompiler = false
 					break
 				}
-				compiledRoutes[compiledRouteKey(route)] = bytecode
+				// Of two declarations with the same method and path the router
+				// dispatches to the first; keep its bytecode, not the last one's.
+				if _, declared := compiledRoutes[compiledRouteKey(route)]; !declared {
+					compiledRoutes[compiledRouteKey(route)] = bytecode
+				}
 			}
 		}
 	}
